@@ -144,8 +144,28 @@ def runInv (rev : Bool) : List DStep → BC → List String → List String
     | .ok bc' =>
       runInv rev ss bc' ((showBool (soundB bc'.finder) ++ showBool (coversB bc'.finder) ++ showBool (cacheB bc')) :: acc)
 
+/-- `+h@i` / `-h@i`; `h = -1` stands for a block that is not in storage (`None`) -/
+def parseOp? (s : String) : Option Op := do
+  let kind := s.take 1 |>.toString
+  match ((s.drop 1).toString).splitOn "@" with
+  | [h, i] =>
+    let i ← parseInt? i
+    let h ← if h = "-1" then some none else (parseNat? h).map some
+    if kind = "+" then some (Op.add h i) else if kind = "-" then some (Op.remove h i) else none
+  | _ => none
+
+def parseOps? (s : String) : Option (List Op) :=
+  if s = "~" then some [] else (s.splitOn ".").mapM parseOp?
+
 def handle : Handler := fun op args =>
   match op, args with
+  | "c15q", [q, ops] => do
+    -- `_update_q(q, ops)` on its own
+    let q ← parseOps? q
+    let ops ← parseOps? ops
+    match updateQ q ops with
+    | .ok q' => some ("ok " ++ dots (q'.map showOp))
+    | .error e => some (showErr e)
   | "c15", [anchor, iter, hdrs, steps] => do
     let anchor ← parseNat? anchor
     let rev := iter = "1"
